@@ -72,7 +72,7 @@ def run_impl(case, td):
     P, scr = case["probes"], case["screening"]
     path = os.path.join(td, f"c{case['id']}.h5")
     opts = SolverOptions(solve_time=case["end"] * UNIT, skip_time=(case["skip"] * UNIT if case["skip"] is not None else 0.0),
-                         dt_init=sc[0] * UNIT, dt_max=1.0, save_every=k, progress_interval=10 ** 9,
+                         dt_init=sc[0] * UNIT, dt_max=max(1.0, 1e3 * UNIT), save_every=k, progress_interval=10 ** 9,
                          pause_on_interrupt=False, output_file=path)
     sizes = {"dt": 1}
     if P:
@@ -289,6 +289,24 @@ def run(rep: common.Report, tier: str, seed: int, replay=None) -> int:
             rep.count(1)
             rep.nontrivial((c["N"] % c["k"] == 0, c["k"] == 1, c["k"] > c["N"], c["skipN"] is not None, c["probes"],
                             c["screening"], len(c["script"]), c["N"] == 0))
+    # the same histories with other time units (every step 1e-12 ... 1e3 tau): the bookkeeping must not care about the size
+    # of the time steps.  Oracle only (the model pass above used the default unit).
+    global UNIT
+    unit0 = UNIT
+    try:
+        with tempfile.TemporaryDirectory(prefix="pyt_c05u_") as td:
+            for u_, stride in ((2.0 ** -40, 9), (2.0 ** -27, 11), (2.0 ** 10, 13)):
+                UNIT = u_
+                for c in cases[::stride]:
+                    c2 = dict(c)
+                    c2["id"] = f"{c['id']}_u{int(np.log2(u_))}"
+                    out2 = run_impl(c2, td)
+                    if not check_oracle(rep, c2, out2):
+                        nbad += 1
+                    rep.count(1)
+        rep.coverage["time_units_exercised"] = [2.0 ** -40, 2.0 ** -27, 2.0 ** -10, 2.0 ** 10]
+    finally:
+        UNIT = unit0
     for c in cases[:2] + cases[len(cases) // 2: len(cases) // 2 + 2]:
         rep.sample({k_: c[k_] for k_ in ("k", "N", "script", "skipN", "probes", "screening", "end")})
     # ---- model side
